@@ -2,6 +2,7 @@
  * The extra trailing arguments are the regions the Lean model reads INSTEAD of process state the C
  * reads (environment, libc's message table); each shim checks that the two agree, so that the
  * comparison of model and implementation is about the same text. */
+#include <fcntl.h>
 extern errno_t _getenv_s_chk(size_t *restrict len, char *restrict dest, rsize_t dmax,
                              const char *restrict name, const size_t destbos);
 extern errno_t _strerror_s_chk(char *dest, rsize_t dmax, errno_t errnum, const size_t destbos);
@@ -57,7 +58,25 @@ static errno_t shim_asctime_s(char *dest, rsize_t dmax, const struct tm *tm, siz
     }
     return _asctime_s_chk(dest, dmax, tm, destbos);
 }
+static errno_t shim_ctime_s_tz(char *dest, rsize_t dmax, const time_t *timer, size_t destbos, const char *text, long check);
+/* check = 2: the call (and libc's reference rendering) run with TZ=XXX-14 (14 hours east of UTC, a POSIX TZ string) */
 static errno_t shim_ctime_s(char *dest, rsize_t dmax, const time_t *timer, size_t destbos, const char *text, long check) {
+    if (check == 2 || check == 3) {     /* 3: libc is expected to return NULL after formatting the 25 characters at `text` */
+        setenv("TZ", "XXX-14", 1); tzset();
+        if (check == 3 && timer) {
+            char tmp[128]; memset(tmp, 0, sizeof tmp);
+            if (ctime_r(timer, tmp) != NULL || !text || strncmp(tmp, text, 25) != 0 || strlen(text) != 25) {
+                fprintf(stderr, "timer=%ld libc=[%s] given=[%s]\n", (long)*timer, tmp, text ? text : "(null)");
+                shim_die("ctime_r was expected to fail after formatting the given text");
+            }
+        }
+        errno_t r = shim_ctime_s_tz(dest, dmax, timer, destbos, text, check == 2 ? 1 : 0);
+        unsetenv("TZ"); tzset();
+        return r;
+    }
+    return shim_ctime_s_tz(dest, dmax, timer, destbos, text, check);
+}
+static errno_t shim_ctime_s_tz(char *dest, rsize_t dmax, const time_t *timer, size_t destbos, const char *text, long check) {
     if (check && timer) {   /* text == NULL: libc is expected to return NULL */
         char tmp[128];
         const char *r = ctime_r(timer, tmp);
@@ -83,9 +102,14 @@ static errno_t shim_gets_s(char *dest, rsize_t dmax, size_t destbos, const char 
     int fds[2];
     shim_restore_stdin();
     if (inplen > 60000) shim_die("gets_s input too long for a pipe");
-    if (pipe(fds)) shim_die("pipe");
-    if (inplen && (!inp || write(fds[1], inp, inplen) != (ssize_t)inplen)) shim_die("write");
-    close(fds[1]);
+    if (!inp) {             /* a stream whose first read fails (EISDIR): the read-error path */
+        fds[0] = open("/", O_RDONLY);
+        if (fds[0] < 0) shim_die("open /");
+    } else {
+        if (pipe(fds)) shim_die("pipe");
+        if (inplen && write(fds[1], inp, inplen) != (ssize_t)inplen) shim_die("write");
+        close(fds[1]);
+    }
     shim_pipe_file = fdopen(fds[0], "r");
     if (!shim_pipe_file) shim_die("fdopen");
     shim_saved_stdin = stdin;
